@@ -430,7 +430,7 @@ def canaries():
 
 
 def parts(tier):
-    n = 7 if tier == 'quick' else 8
+    n = 7 if tier == 'quick' else 9
     out = []
     for name in ('Select', 'Poll', 'EPoll'):
         out.append(Part(name, make_harness(name, n, max_conns=1),
@@ -438,10 +438,10 @@ def parts(tier):
                                 'ops': 'connect/send/fin/rst/block/unblock/write/close (also late)/iterate'},
                         encoded=ENC, budget_s=85 if tier == 'quick' else 1500))
     for name in ('Select', 'Poll', 'EPoll'):
-        out.append(Part('client-' + name, make_client_harness(name, 5 if tier == 'quick' else 6),
-                        bounds={'poller': name, 'side': 'TCPClient', 'history_length': 5 if tier == 'quick' else 6, 'ops': 'send/fin/rst/block/unblock/write/close/iterate'},
+        out.append(Part('client-' + name, make_client_harness(name, 5 if tier == 'quick' else 7),
+                        bounds={'poller': name, 'side': 'TCPClient', 'history_length': 5 if tier == 'quick' else 7, 'ops': 'send/fin/rst/block/unblock/write/close/iterate'},
                         encoded=[SK.Client._read, SK.Client._close, SK.Client.close, SK.Client.write], budget_s=85 if tier == 'quick' else 1200))
-    n2 = 5 if tier == 'quick' else 6
+    n2 = 5 if tier == 'quick' else 7
     for name in ('Select', 'Poll', 'EPoll'):
         out.append(Part('two-connections-' + name, make_harness(name, n2, max_conns=2), bounds={'poller': name, 'history_length': n2, 'connections': 2}, encoded=ENC,
                         budget_s=85 if tier == 'quick' else 900))
